@@ -324,4 +324,50 @@ Apply(be, act, args, self, other) ==
     [] act = "update_query" -> UpdateQuery(be, self, args.q)
     [] act = "without_query_params" -> WithoutQueryParams(be, self, args.keys)
     [] act = "join" -> OK(Join(self, other))
+
+\* ------------------------------------------------------- every accessor, derived lazily from the five parts
+\* (cached_property bodies of yarl/_url.py; decoded ones through the Level I unquoters)
+OptR(r) == IF IsOK(r) THEN [ok |-> r.ok] ELSE [exc |-> "ValueError"]
+OptMap(r, f(_)) == IF ~IsOK(r) THEN [exc |-> "ValueError"] ELSE IF IsNone(r.ok) THEN [ok |-> NONE] ELSE [ok |-> SOME(f(Get(r.ok)))]
+UnqPlain(t) == Unquote(UNQUOTER, t)
+RawSuffixes(u) == LET n == RawName(u) IN
+  IF n # <<>> /\ Last(n) = DOT THEN <<>>
+  ELSE LET ps == Split(LStripSet(n, {DOT}), DOT) IN [i \in 1..(Len(ps) - 1) |-> <<DOT>> \o ps[i + 1]]
+PathDecoded(u) == IF u.path # <<>> THEN Unquote(PATH_UNQUOTER, u.path) ELSE IF u.netloc # <<>> THEN <<SLASH>> ELSE <<>>
+QueryStringDecoded(u) == IF u.query # <<>> THEN Unquote(QS_UNQUOTER, u.query) ELSE <<>>
+AccessorNames == {"scheme", "raw_authority", "raw_user", "raw_password", "raw_host", "explicit_port", "host_subcomponent", "user", "password", "port", "raw_path", "path", "path_safe", "raw_query_string", "query_string", "raw_fragment", "fragment", "raw_parts", "parts", "raw_name", "name", "raw_suffix", "suffix", "raw_suffixes", "suffixes", "raw_path_qs", "path_qs", "absolute", "bool", "str", "is_default_port"}
+\* one accessor at a time (only the observed ones are evaluated)
+AccM(f, u) ==
+  CASE f = "scheme" -> [ok |-> u.scheme]
+    [] f = "raw_authority" -> [ok |-> u.netloc]
+    [] f = "raw_user" -> OptR(RawUser(u))
+    [] f = "raw_password" -> OptR(RawPassword(u))
+    [] f = "raw_host" -> OptR(RawHost(u))
+    [] f = "explicit_port" -> OptR(ExplicitPort(u))
+    [] f = "host_subcomponent" -> OptR(HostSubcomponent(u))
+    [] f = "user" -> OptMap(RawUser(u), UnqPlain)
+    [] f = "password" -> OptMap(RawPassword(u), UnqPlain)
+    [] f = "port" -> (LET ep == ExplicitPort(u) IN IF ~IsOK(ep) THEN [exc |-> "ValueError"] ELSE [ok |-> IF ~IsNone(ep.ok) THEN ep.ok ELSE DefaultPortOf(u.scheme)])
+    [] f = "raw_path" -> [ok |-> RawPath(u)]
+    [] f = "path" -> [ok |-> PathDecoded(u)]
+    [] f = "path_safe" -> [ok |-> IF u.path # <<>> THEN Unquote(PATH_SAFE_UNQUOTER, u.path) ELSE IF u.netloc # <<>> THEN <<SLASH>> ELSE <<>>]
+    [] f = "raw_query_string" -> [ok |-> u.query]
+    [] f = "query_string" -> [ok |-> QueryStringDecoded(u)]
+    [] f = "raw_fragment" -> [ok |-> u.fragment]
+    [] f = "fragment" -> [ok |-> IF u.fragment # <<>> THEN UnqPlain(u.fragment) ELSE <<>>]
+    [] f = "raw_parts" -> [ok |-> RawParts(u)]
+    [] f = "parts" -> [ok |-> [i \in 1..Len(RawParts(u)) |-> UnqPlain(RawParts(u)[i])]]
+    [] f = "raw_name" -> [ok |-> RawName(u)]
+    [] f = "name" -> [ok |-> UnqPlain(RawName(u))]
+    [] f = "raw_suffix" -> [ok |-> RawSuffix(u)]
+    [] f = "suffix" -> [ok |-> UnqPlain(RawSuffix(u))]
+    [] f = "raw_suffixes" -> [ok |-> RawSuffixes(u)]
+    [] f = "suffixes" -> [ok |-> [i \in 1..Len(RawSuffixes(u)) |-> UnqPlain(RawSuffixes(u)[i])]]
+    [] f = "raw_path_qs" -> [ok |-> IF u.query # <<>> THEN RawPath(u) \o <<QMARK>> \o u.query ELSE RawPath(u)]
+    [] f = "path_qs" -> [ok |-> IF QueryStringDecoded(u) = <<>> THEN PathDecoded(u) ELSE PathDecoded(u) \o <<QMARK>> \o QueryStringDecoded(u)]
+    [] f = "absolute" -> [ok |-> u.netloc # <<>>]
+    [] f = "bool" -> [ok |-> (u.netloc # <<>> \/ u.path # <<>> \/ u.query # <<>> \/ u.fragment # <<>>)]
+    [] f = "str" -> OptR(Str(u))
+    [] f = "is_default_port" -> (LET ep == ExplicitPort(u) IN IF ~IsOK(ep) THEN [exc |-> "ValueError"]
+                        ELSE [ok |-> IF IsNone(ep.ok) THEN u.netloc # <<>> ELSE ep.ok = DefaultPortOf(u.scheme)])
 =============================================================================
